@@ -66,7 +66,7 @@ impl State {
                     arg,
                 } => {
                     if *low_byte == ByteSize::new(0) {
-                        if let Some(arg_value) = self.eval(expression).get_if_absolute_value() {
+                        if let Some(arg_value) = self.eval(arg).get_if_absolute_value() {
                             if arg_value.fits_into_size(*size) {
                                 let intermediate_result =
                                     result.cast(CastOpType::IntSExt, arg.bytesize());
